@@ -47,7 +47,7 @@ CHECKS = {
         technique="property-based testing (rapid) + exhaustive enumeration of small groups against a validity predicate",
         level_text=("Validity predicate of the statement (exactly-once, subscribers only, per-topic balance <=1, contiguous / k-th runs, "
                     "order independence, rack bound) evaluated on every group with <=4 members x 2 topics x <=5 partitions x all listing orders, "
-                    "every rack placement for rack-affinity (<=4 members, <=6 partitions), each rack-affinity case re-run in fresh maps; plus generated groups up to 30 members x 200 partitions, cloud-style rack names, partitions listed with an error of their own."),
+                    "every rack placement for rack-affinity (<=4 members, <=6 partitions), each rack-affinity case re-run in fresh maps; plus generated groups up to 30 members x 200 partitions, cloud-style rack names, partitions listed with an error of their own. Partitions also list replicas (Replicas / Isr) on brokers of other racks than the leader's, including leaders without a rack."),
         level_note="RackAffinity map-iteration orders are sampled (6-8 runs per case), not enumerated",
         rule=("cases = (balancer, members with subscriptions and racks, listed partitions with leader racks, listing permutation); "
               "enumerated small groups (quick: 1/12 slice chosen by seed) + rapid-generated groups. Non-trivial = some topic has >=2 subscribers and >=1 partition; "
@@ -108,7 +108,7 @@ CHECKS = {
                     "x source reader types x 1-3 interleaved streams x a history of earlier uses of the pooled objects (complete, abandoned half-read, closed twice, truncated / corrupted / garbage input, failing sink, sibling codec value sharing the pool) "
                     "x 2-8 goroutines on one codec value. Oracles: identity; compressed bytes decoded by stdlib gzip / hand-parsed xerial + golang/snappy (cross-checked with go-xerial-snappy) / pierrec lz4 / klauspost zstd; "
                     "reference-encoded streams (raw snappy block, hand-built multi-block xerial, multi-member gzip, lz4 frames with all flag combinations, zstd stream/EncodeAll/multi-frame) read by the codec; "
-                    "a use that fails after a history is re-run on a fresh codec value to attribute the failure to the history. Writers that offer ReadFrom are fed from one or two sources, with Write before and after. Exploration: all dimensions are sampled."),
+                    "a use that fails after a history is re-run on a fresh codec value to attribute the failure to the history. Writers that offer ReadFrom are fed from one or two sources, with Write before and after. Exploration: all dimensions are sampled. A Read after the one that reported the end of a stream returns (0, io.EOF)."),
         level_note=("lz4 and zstd reference decoders are the same upstream libraries the codecs wrap (used directly, without the pooling layer); corrupted inputs never touch length fields that could make a decoder allocate gigabytes (that is C20); "
                     "sequential units run with GOMAXPROCS(1) so that sync.Pool hands the object of the history step to the next use; a data race seen by the race-built TestConcurrent unit surfaces as exit 2 (infrastructure) with the race report in the unit log"),
         rule=("case = (codec spec, history steps, 1-3 streams each with payload recipe (kind, length, seed) + Write plan + Read plan, optional reference encoder spec, goroutines); "
@@ -172,7 +172,7 @@ CHECKS = {
                     "against the fake broker's own RFC 4616 / RFC 5802 server; rapid adds generated user names and passwords (printable ASCII with ',' '=' and escape look-alikes, RFC 4013 cases with known prepared form). "
                     "Per connection the broker journal decides: only ApiVersions/SaslHandshake/SaslAuthenticate (or raw tokens) before the broker's verdict ok, nothing after a failed step, "
                     "the call returns an error and the client closes every connection, framing follows the handshake version, the exchange completes iff credentials are right and the server signature verifies, "
-                    "and the real request after a completed exchange is answered from the model."),
+                    "and the real request after a completed exchange is answered from the model. Dialer entries also with an address whose port is a service name (whether such a dial succeeds is the library's choice; nothing but the exchange may reach the broker, and a failed dial closes its connection)."),
         level_note=("faults apply to every connection of a case alike; stalls (no response) are not injected because Conn has no deadline during the dial-time exchange; "
                     "refusing a low PBKDF2 iteration count is the SCRAM client library's policy and is only observed; a ConsumerGroup built directly is covered through the Dialer it uses"),
         rule=("case = (mechanism, advertised SaslHandshake and SaslAuthenticate versions, entry point, fault, error code, user, password, wrong password, decoy accounts, iterations, partition range); "
@@ -294,7 +294,7 @@ CHECKS = {
                     "Fetch: logsim layouts (format 0 plain, formats 1/2 x every codec, v1 wrappers with relative offsets incl. wrappers thinned by log compaction, compaction holes, empty and control batches, one batch with a corrupted CRC, values spanning pages, broker down-conversion for fetch < v4) "
                     "are served at fetch v2..v11 with byte limits; every Client.Fetch response is compared with the reference decoding of exactly the bytes the broker sent (whole batches only), Conn.ReadBatch and Reader with the model (nil == empty). "
                     "Pool: 1-4 goroutines decode 2-5 record sets through Client.Fetch and RecordSet.ReadFrom (bufio / bytes.Buffer / plain reader), hold key/value Bytes unread or half read across later decodes and releases, and compare them when released. "
-                    "Mutation: bit flips in checksum-covered bytes and in the CRC field, base-offset / leader-epoch rewrites, cuts at a byte limit and short streams; decoded records must equal the intact whole batches (prefix if a batch is damaged). Exploration: all dimensions are sampled."),
+                    "Mutation: bit flips in checksum-covered bytes and in the CRC field, base-offset / leader-epoch rewrites, cuts at a byte limit and short streams; decoded records must equal the intact whole batches (prefix if a batch is damaged). Exploration: all dimensions are sampled. Header values may be longer than 64 KiB."),
         level_note=("trusts refcodec/records.go (own CRC tables, format libraries used directly) and the fake broker; Time zero is judged against wall-clock readings around the call; header values are compared by content only (null vs empty header values is counted, not judged); "
                     "format 1 cannot carry headers (produce <= v2 compares key/value/timestamp only); goroutine interleavings and sync.Pool hand-over are sampled, the race-built TestPool unit reports data races as violations; "
                     "bits inside compressed payloads are not flipped (decompressor robustness is C16/C20)"),
@@ -337,7 +337,7 @@ CHECKS = {
                     "(3) Reader (C02 delivery oracle) and Writer (C01 duplicate rule, C07 order rule, no-loss) runs whose n-th fetch/produce response is cut inside the size prefix, the header, a record batch or at a batch boundary. "
                     "Thorough tier: all k in [0,len] for frames <= 4 KiB (counter exhaustive_frames); larger frames: first/last 512 bytes, every field and batch boundary +-1, 256 drawn positions. "
                     "Oracle per cut: the call returns within its deadline + 2 s, returns an error unless the whole response it waits for arrived, never panics, returns only complete stored records (exact content) before the error, "
-                    "a later operation on the Conn fails without writing a byte / the Transport, Reader and Writer send nothing more on that connection and the next call succeeds on a new one."),
+                    "a later operation on the Conn fails without writing a byte / the Transport, Reader and Writer send nothing more on that connection and the next call succeeds on a new one. Stall cases also with the operation's own deadline set once before the call and left alone while it runs."),
         level_note=("response values are sampled (1 generated value per (api,version) per round; fixed cluster state for Conn/Client operations), cut positions are enumerated; the stall variant (k bytes, then silence until the deadline) is sampled at a few positions per frame because each costs the deadline; "
                     "Client.Metadata is served from the Transport's cache, so a cut of the Transport's own metadata exchange may surface as an error or as the correct data of a later refresh; trusts the reference encoder and the fake broker's responses"),
         rule=("case = (layer, operation or api, negotiated version, response that is cut, k, variant eof|rst|stall [, log layout]) resp. a Reader/Writer scenario with a fault script; "
@@ -361,7 +361,7 @@ CHECKS = {
         level_text=("A ConsumerGroup is driven directly: rounds of Next, Start of functions that wait / return early / linger / are started late, then an ending event (function return, heartbeat error code, dropped heartbeat connection, a heartbeat that is never answered (the generation ends after ConsumerGroupConfig.Timeout), "
                     "coordinator-signalled rebalance, partition count change seen by the watcher, Close, Close while an error is pending), with error codes and dropped connections injected into FindCoordinator/JoinGroup/SyncGroup/OffsetFetch/LeaveGroup "
                     "and yields at the schedule points around Start, function exit and the hand-over to Next. Invariants: Next never returns while a function of the previous generation runs; contexts end within 1 s of the ending event; "
-                    "heartbeats carry the generation's ids, stop with it and keep coming while it lives; Close sends LeaveGroup for the member id of the last successful join; a failed join is not retried before JoinGroupBackoff."),
+                    "heartbeats carry the generation's ids, stop with it and keep coming while it lives; Close sends LeaveGroup for the member id of the last successful join; a failed join is not retried before JoinGroupBackoff. Functions may take longer to wind down (350-650 ms) than the group's RebalanceTimeout (300 ms); the hand-over still waits for them."),
         level_note="time bounds: late-but-happened is inconclusive; violation only for never (4 s + intervals) or > 3 s late; the fake coordinator has no session timers; interleavings are sampled",
         rule=("case = (cluster, intervals, rounds with function specs and ending event, setup fault script, schedule-point yields); non-trivial = >= 2 generations or a generation ended by something other than Close; "
               "distinct by (layout, ending events, fault multiset, labels)."),
@@ -395,7 +395,7 @@ CHECKS = {
                     "Writer (sync/async, several balancers: WriteMessages, cancelled WriteMessages, Stats, Close), Reader (FetchMessage, ReadMessage, SetOffset, SetOffsetAt, Offset, Lag, ReadLag, Stats, Config, Close), "
                     "group Reader (plus CommitMessages, sync and interval commits), Conn (deadline setters, Offset, Seek in all modes, ReadOffsets, WriteMessages, WriteCompressedMessages, ReadBatch+ReadMessage, Read, ReadPartitions, Brokers, Controller, ApiVersions, Close), "
                     "Batch (Read, ReadMessage, Offset, HighWaterMark, Throttle, Partition, Err, Close), Client over one Transport (Metadata, ListOffsets, Produce, Fetch, CreateTopics, OffsetFetch, OffsetCommit, ListGroups, DescribeGroups, ApiVersions, ConsumerOffsets, CloseIdleConnections; short and long metadata TTL), "
-                    "every built-in balancer, every compression codec value. Environment events run inside the programs (brokers added / dropped, leaders moved, group rebalances), a plain sleep at a schedule point (writer/reader closeMarked) widens the window after Close marked the value closed without adding synchronisation, a Transport with a TLS configuration is shared by two cluster addresses, codecs and batches are closed twice, Batch.Read gets buffers shorter than the value, Seek is also called with SeekDontCheck, the codec value the threads share has not been used before they start. After each program the number of detector reports (runtime.RaceErrors) is compared and the new reports are parsed from the detector's log."),
+                    "every built-in balancer, every compression codec value. Environment events run inside the programs (brokers added / dropped, leaders moved, group rebalances), a plain sleep at a schedule point (writer/reader closeMarked) widens the window after Close marked the value closed without adding synchronisation, a Transport with a TLS configuration is shared by two cluster addresses, codecs and batches are closed twice, Batch.Read gets buffers shorter than the value, Seek is also called with SeekDontCheck, the codec value the threads share has not been used before they start. After each program the number of detector reports (runtime.RaceErrors) is compared and the new reports are parsed from the detector's log. Client programs also run over a Transport with a Resolver."),
         level_note="a race is only reported when the two accesses actually overlap in the sampled schedule; absence of reports is not absence of races. Races between harness goroutines only stop the run as an infrastructure error",
         rule=("case = (subject type, variant, records in the log, per-goroutine operation lists, repetitions); non-trivial = calls of two different goroutines on the shared value were in progress at the same time (measured); distinct by the case value."),
         assumptions=["the fake cluster and in-memory network are themselves race-free (a report without a library frame is treated as a harness fault, exit 2)",
@@ -417,7 +417,7 @@ CHECKS = {
         level_text=("1-4 group Readers run a generated history against the fake coordinator: join, Close, crash (network severed, later evicted), forced rebalance, FetchMessage, CommitMessages of chosen fetched messages (also out of order), "
                     "ReadMessage, appends, with error codes / dropped connections / lost acknowledgements injected into FindCoordinator, JoinGroup, SyncGroup, Heartbeat, OffsetCommit, OffsetFetch and Fetch; sync and interval commits, single- and multi-topic, range and roundrobin. "
                     "Invariants over the globally sequenced journal: I1 an acknowledged commit never exceeds 1 + the highest offset the member's application had passed; I2 a synchronous CommitMessages returning nil is backed by an acknowledged commit; "
-                    "I3 every offset below an acknowledged commit had been delivered to some member before; I4 per member and partition deliveries are consecutive runs, each starting where an OffsetFetch answered to that member said; I5 at quiescence everything was delivered (inconclusive if not)."),
+                    "I3 every offset below an acknowledged commit had been delivered to some member before; I4 per member and partition deliveries are consecutive runs, each starting where an OffsetFetch answered to that member said; I5 at quiescence everything was delivered (inconclusive if not). The coordinator may list the partitions of an OffsetFetch answer in another order than asked."),
         level_note="heaviest reliance on the fake coordinator's fidelity (Java-broker state machine, no session timers; evictions on harness command); real timers (heartbeat, commit ticker, rebalance timeout) are sampled",
         rule=("case = (cluster, members with commit mode, history steps, coordinator fault script); non-trivial = at least one rebalance (SyncGroup answered) after the first delivery; distinct by (shape, op multiset, fault count, labels)."),
         assumptions=["a message returned by ReadMessage together with a commit error counts as delivered and uncommitted", "with StartOffset=LastOffset the start position of an uncommitted partition is not reconstructed (I3/I5 are then not evaluated)"],
